@@ -203,6 +203,13 @@ def main():
     tr_ok, tr_msg, models, consts = vlib.translate()
     if not tr_ok:
         problems.append(("translator", "tools/rs2v.py could not translate the current source: " + tr_msg))
+        # the tie is broken (theorems are NOT re-checked against this source). To still search for a failing input,
+        # the correspondence and the oracles are run with the committed baseline of the generated files
+        # (tools/gen_baseline = the translation of the pinned, repaired tree).
+        vlib.use_baseline_gen()
+        bl = vlib.baseline_models()
+        if bl is not None:
+            models, consts = bl
     # ---- 2. proofs
     proof = check_proofs(prop) if tr_ok else dict(ok=False, obligations=0, discharged=0, theorems=[], detail="Gen/*.v not regenerated")
     if not proof["ok"]:
@@ -213,7 +220,7 @@ def main():
         chk_info = dict(coqchk_ok=ok_chk, coqchk_axioms=axioms)
         if not ok_chk:
             problems.append(("coqchk", "coqchk -o on Props.%s: axioms = %s\n%s" % (prop, axioms, tail)))
-    corr_ok_build, corr_out = (vlib.coq_make(["Corr/%s.vo" % prop]) if tr_ok else (False, "Gen/*.v not regenerated"))
+    corr_ok_build, corr_out = vlib.coq_make(["Corr/%s.vo" % prop])
     if not corr_ok_build:
         problems.append(("model-build", "make Corr/%s.vo failed: %s" % (prop, corr_out[-1500:])))
     # ---- 3. harness
